@@ -54,4 +54,15 @@ CHECKS["C07"] = {
     "note": TRUST + " _create_connection awaits a harness future; waiter shuffle is identity or reversal; bound d=2 quick, 3 thorough.",
 }
 
+CHECKS["C05"] = {
+    "engine": "SCHED",
+    "design_ref": "§3 C05, §2.1-2.3",
+    "technique": "deviation-bounded exhaustive schedule exploration of the real RequestHandler on a virtual loop + independent response framer",
+    "text": "About 70 scenarios (pipelines of 1..40 requests with and without bodies, hostile inputs, 9 handler behaviours) run a real web.Application behind a real RequestHandler "
+            "on the in-memory wire; every schedule with at most d deviations (inbound segmentation, write buffer full/flush, peer close/reset at any pass, timer before I/O, "
+            "several events per pass) is executed.  An independent framer cuts the server's output; order, count, well-formedness, 4xx+close for unparsable input, the queue bound, "
+            "no escaping exception, no loop-handler call and 'no open connection with an unanswered request and an idle handler' (at every quiescent point) are checked.",
+    "note": TRUST + " d=2 quick, 3 thorough (1/2 on the 31..40-deep pipelines).",
+}
+
 NOT_APPLICABLE = {}
